@@ -9,7 +9,7 @@ from .. import oracle
 SCOPE = {"info"}
 N_QUICK = 250
 N_THOROUGH = 8000
-RULE = ("random perfect-recall trees (shared infosets, shared chance infosets, rare outcomes, single-action/-outcome nodes, "
+RULE = ("30 % of the imported cases continue as a sequence evaluate / truncate (clone or in place) / evaluate on one object, every get_info judged against the view at that moment; random perfect-recall trees (shared infosets, shared chance infosets, rare outcomes, single-action/-outcome nodes, "
         "depth <= 7) x profiles (pure, with zero-probability actions making subtrees unreachable, dirichlet, tiny entries, "
         "solver outputs) -> get_info vs the Coq evaluator at binary64, and vs an independent exhaustive best response over all "
         "pure strategies (Python, only the definitions) when a player has <= 4096 pure strategies; non-trivial = both players "
@@ -17,14 +17,31 @@ RULE = ("random perfect-recall trees (shared infosets, shared chance infosets, r
 ASSUMPTIONS = ["floating-point underflow of reach on very deep trees is outside the real-number theorem; generated trees have depth <= 8"]
 
 
-def build(cid, t, st, named=None, solve=None):
+def build(cid, t, st, named=None, solve=None, seq=None):
     cb = CaseBuilder(cid, t, {"stats": st})
     if named is not None:
         s = cb.import_(named, fast=True)
     else:
         s = cb.solve(*solve)
-    cb.named(s)
-    cb.info(s)
+    n0 = cb.named(s)
+    i0 = cb.info(s)
+    pairs = [(n0, i0)]
+    if seq is not None:
+        # the evaluation must be exact for whatever profile the object holds NOW: evaluate, truncate (clone or in
+        # place), evaluate again; the untouched original must still give the first answer
+        rng = seq
+        cur = s
+        for _ in range(rng.choice([1, 2])):
+            h = rng.choice([0.05, 0.2, 0.34, 0.5, rng.random()])
+            inplace = rng.random() < 0.5
+            if not inplace and rng.random() < 0.5:
+                i_again = cb.info(cur)
+                pairs.append((pairs[-1][0], i_again))
+            cur = cb.truncate(cur, h, inplace=inplace)
+            nn = cb.named(cur)
+            ii = cb.info(cur)
+            pairs.append((nn, ii))
+    cb.meta["pairs"] = pairs
     return cb
 
 
@@ -59,7 +76,8 @@ def generate(rng, tier, n):
                 cases.append(build(cid, t, st, solve=("full", rng.choice([1, 5, 30]), 0.0, 1,
                                                       rng.choice(["vanilla", "dcfr", "cfr_plus"]))))
             else:
-                cases.append(build(cid, t, st, named=random_named(rng, t, rng.choice(["pure", "zeros", "dirichlet", "tiny", "uniform"]))))
+                cases.append(build(cid, t, st, named=random_named(rng, t, rng.choice(["pure", "zeros", "dirichlet", "tiny", "uniform"])),
+                                   seq=rng if rng.random() < 0.3 else None))
             cid += 1
             if len(cases) >= n:
                 break
@@ -94,10 +112,18 @@ def monitor(cb, impl):
     ops = impl["ops"]
     if any("panic" in o for o in ops if isinstance(o, dict)):
         return [("panic: %r" % [o for o in ops if isinstance(o, dict) and "panic" in o][:1], "panic")]
-    if "ok" not in ops[1] or "ok" not in ops[2]:
-        return hits
-    strat = oracle.strat_from_named(ops[1]["ok"])
-    util, r1, r2, reg, u2 = [b2f(x) for x in ops[2]["ok"]]
+    for n_idx, i_idx in cb.meta.get("pairs", [(1, 2)]):
+        if n_idx >= len(ops) or i_idx >= len(ops) or "ok" not in ops[n_idx] or "ok" not in ops[i_idx]:
+            continue
+        hits += _judge(cb, ops[n_idx]["ok"], ops[i_idx]["ok"], "" if (n_idx, i_idx) == (1, 2) else
+                       " (get_info call at op %d of a sequence evaluate / truncate / evaluate on one profile object)" % i_idx)
+    return hits
+
+
+def _judge(cb, named_ok, info_ok, where):
+    hits = []
+    strat = oracle.strat_from_named(named_ok)
+    util, r1, r2, reg, u2 = [b2f(x) for x in info_ok]
     lo, hi = oracle.payoff_range(cb.tree)
     scale = max(1.0, min(max(abs(lo), abs(hi)), oracle.payoff_mass(cb.tree) * 16))
     tol = 1e-9 * scale
@@ -116,7 +142,7 @@ def monitor(cb, impl):
         if abs(want - r) > tol:
             hits.append(("player %d: reported regret %r, exhaustive best response gains %r (br %r, utility %r)"
                          % (pl, r, want, br, u), "regret"))
-    return hits
+    return [(t + where, c) for t, c in hits]
 
 
 def nontrivial(cb, impl):
